@@ -52,6 +52,15 @@ class Engine:
         self.f = f
         self.init = frozenset((S, frozenset()) for S in init_states)
         self.IN = None
+        # a rule may restrict the path knowledge to the keys it cares about
+        # (spec.keep (f, key) -> bool); everything else is forgotten, which
+        # keeps the element sets small in the big decoder functions
+        self._keep = getattr(spec, "keep", None)
+
+    def _kset(self, K, key, val):
+        if self._keep is not None and val is not None and not self._keep(self.f, key):
+            return K
+        return k_set(K, key, val)
 
     def run(self):
         self.IN = flow.forward(self.f, self.init, self.xfer_elem, self.xfer_edge, self.join, max_visits=400)
@@ -154,13 +163,13 @@ class Engine:
                 key = self._key(a)
                 if key is not None:
                     if eq:
-                        return k_set(K, key, vb)
+                        return self._kset(K, key, vb)
                     if vb == 0:
-                        return k_set(K, key, NZ)
+                        return self._kset(K, key, NZ)
             return K
         key = self._key(j)
         if key is not None:
-            return k_set(K, key, NZ if truth else 0)
+            return self._kset(K, key, NZ if truth else 0)
         return K
 
     def _key(self, i):
@@ -191,7 +200,7 @@ class Engine:
                 for item in self.spec.call(self, f, i, e, S, K2):
                     S2, rv = item[0], item[1]
                     K3 = item[2] if len(item) > 2 else K2
-                    out.add((S2, k_set(K3, ("c", i), rv)))
+                    out.add((S2, self._kset(K3, ("c", i), rv)))
             if e.get("noret"):
                 return None
             return frozenset(out)
@@ -216,7 +225,7 @@ class Engine:
                         K = k_kill_var(K, name)
                         K = frozenset((kk, v) for kk, v in K if not (kk[0] == "p" and _mentions(kk[1], name)))
                         if val is not None:
-                            K = k_set(K, ("v", name), val)
+                            K = self._kset(K, ("v", name), val)
                     elif lhs is not None:
                         p = ex.path(f, lhs)
                         # field-based kill of path knowledge
@@ -224,7 +233,7 @@ class Engine:
                         K = frozenset((kk, v) for kk, v in K
                                       if not (kk[0] == "p" and (last is None or _last_member(kk[1]) == last)))
                         if p and val is not None and "*]" not in p:
-                            K = k_set(K, ("p", p), val)
+                            K = self._kset(K, ("p", p), val)
                 out.add((S, K))
             return frozenset(out)
         return st
@@ -278,7 +287,7 @@ class Engine:
             elif isinstance(lab, tuple) and lab[1] == lab[2]:
                 key = self._key(t["cond"])
                 if key is not None:
-                    K = k_set(K, key, lab[1])
+                    K = self._kset(K, key, lab[1])
             out.add((S, K))
         return frozenset(out) if out else None
 
